@@ -1095,3 +1095,41 @@ def _symbytes_of(x):
 
 
 SymBytes.of = staticmethod(_symbytes_of)
+
+
+# --------------------------------------------------------------------------
+# range() whose bounds are symbolic but whose LENGTH is decided by the path
+
+
+class _RangeMeta(_ShadowMeta):
+    real = builtins.range
+
+    def _inst(cls, obj):
+        return isinstance(obj, builtins.range)
+
+    def __call__(cls, *a):
+        if not any(isinstance(x, (SymNum, SymBool)) for x in a):
+            return builtins.range(*a)
+        if len(a) == 1:
+            start, stop, step = 0, a[0], 1
+        elif len(a) == 2:
+            start, stop, step = a[0], a[1], 1
+        else:
+            start, stop, step = a
+        if isinstance(step, SymNum):
+            step = step.concrete()
+        if step != 1:
+            raise Unsupported("range() with a symbolic bound and a step other than 1")
+        n = _lift(stop) - _lift(start)
+        k = n.concrete()
+        if k is None:
+            # the number of iterations must be a definite number on this path
+            k = n.__index__()         # forks over the (few) feasible values
+        return [start + i for i in range(max(0, k))]
+
+
+class range_(metaclass=_RangeMeta):
+    pass
+
+
+STD["range"] = range_
